@@ -378,7 +378,7 @@ def run_bounded(pid, tier, seed):
         t0 = time.time()
         try:
             p = subprocess.run(cmd, shell=True, cwd=ROOT, capture_output=True, text=True,
-                               timeout=b.get('timeout', 900),
+                               timeout=b.get('timeout', 7200),      # generous: exhaustive, and the machine may be busy
                                env=dict(os.environ, VERIF_SEED=str(seed)))
             lines = [l for l in p.stdout.strip().split('\n') if l.startswith('{')]
             res = json.loads(lines[-1]) if lines else {'error': p.stderr[-500:]}
